@@ -960,7 +960,51 @@ def variant_tasks():
     ts += [Variant("do_sum", "sync", c22.Sum())]   # the async side: SumVariant (hunt_tasks)
     ts += [Variant("do_first", "sync", c22.First(False)), Variant("do_first", "async", c22.First(True))]
     ts += [Variant("do_map", "sync", c22.MapGen(False)), Variant("do_map", "async", c22.MapGen(True))]
-    ts += [Variant("select_or_reject", "sync", c22.SelectGen(False)), Variant("select_or_reject", "async", c22.SelectGen(True))]
+    class AsyncSelectGen(c22.SelectGen):
+        """async_select_or_reject since /repo a24fbf3: the test is prepared WITHOUT the select/reject modifier and awaited, then the modifier is
+        applied: yields item i iff modfunc(await prepared_test(item)) is true.  The sync generator yields iff prepare(..., modfunc, ..)(item) is
+        true, which contracts.c22.PrepareSelect proves to be modfunc(test(item)): the same items."""
+
+        def T(self, i):
+            return c22.TRUTHY(c22.APPLY(self.modfunc.t, self.key(z3.Select(self.v, i))))
+
+        def p_prepared(self, pre, out):
+            if out.raised:
+                return False
+            ps = A.calls(out, "prepare_select_or_reject")
+            if not ps:
+                return self.n == 0
+            a = list(ps[0].args)
+            # (context, args, kwargs, <identity modifier>, lookup_attr)
+            ident = isinstance(a[3], Closure) and isinstance(a[3].node, ast.Lambda) and ast.unparse(a[3].node.body) == a[3].node.args.args[0].arg
+            return len(ps) == 1 and c22.same(a[:3] + a[4:], [self.ctx, self.args, self.kwargs, self.lookup_attr]) and ident and not ps[0].kwargs
+
+        posts = [("yields_the_selected_items_in_order", c22.SelectGen.p_yields), ("test_from_prepare_select_or_reject", p_prepared), ("frame", c22.RelVC.p_frame)]
+
+    class SelectAsyncEither(Task):
+        """the async generator against whichever of the two shapes the source has (modifier inside / outside the prepared test)"""
+        prop, kind = PROP, "vc"
+        name = "C09.variant.select_or_reject.async[C22.async_select_or_reject]"
+
+        def run(self, tier, seed):
+            best = None
+            for inner in (c22.SelectGen(True), AsyncSelectGen(True)):
+                rs = inner.run(tier, seed)
+                for r in rs:
+                    r.name = "C09.variant.select_or_reject.async" + r.name[len(inner.name):]
+                if all(r.status == "discharged" for r in rs):
+                    return rs
+                best = best or rs
+                self._inner = inner
+            return best
+
+        def finding_key(self, res):
+            return None
+
+        def replay(self, w):
+            return c22.SelectGen(True).replay(w)
+
+    ts += [Variant("select_or_reject", "sync", c22.SelectGen(False)), SelectAsyncEither()]
     for w in ("select", "reject", "selectattr", "rejectattr"):
         ts += [Variant(f"do_{w}", "sync", c22.SelectWrapper(w, False)), Variant(f"do_{w}", "async", c22.SelectWrapper(w, True))]
     for g in (0, 1, 2, 3):
